@@ -57,6 +57,7 @@ var (
 	ErrDNSQueryConcurrencyLimitExceeded = errors.New("dns query concurrency limit exceeded")
 	ErrDNSUDPConnPoolExhausted          = errors.New("dns udp conn pool exhausted")
 	ErrDNSTruncated                     = errors.New("dns response truncated")
+	ErrDNSResponseQuestionMismatch      = errors.New("dns response does not answer the question asked")
 )
 
 var (
@@ -2735,6 +2736,12 @@ func (c *DnsController) dialSend(
 	if err != nil {
 		return err
 	}
+	// No transport compares the question of what it received with what was sent
+	// (UDP and the TCP pipeline match on the 16-bit ID only): never hand to the
+	// client, or cache under the asker's key, an answer to some other question.
+	if !dnsResponseAnswersRequest(data, respMsg) {
+		return ErrDNSResponseQuestionMismatch
+	}
 
 	networkType := &dialer.NetworkType{
 		L4Proto:         usedDialArg.l4proto,
@@ -2872,6 +2879,21 @@ func (c *DnsController) dialSend(
 		return err
 	}
 	return nil
+}
+
+// dnsResponseAnswersRequest reports whether resp carries the question of the
+// packed request reqData: same name (case-insensitively), type and class.
+func dnsResponseAnswersRequest(reqData []byte, resp *dnsmessage.Msg) bool {
+	var req dnsmessage.Msg
+	if err := req.Unpack(reqData); err != nil || len(req.Question) == 0 {
+		// Nothing to compare with; such requests are never cached under a name.
+		return true
+	}
+	if resp == nil || len(resp.Question) == 0 {
+		return false
+	}
+	want, got := req.Question[0], resp.Question[0]
+	return want.Qtype == got.Qtype && want.Qclass == got.Qclass && strings.EqualFold(want.Name, got.Name)
 }
 
 // buildMinHeap constructs a min-heap from the cache entries slice.
